@@ -19,6 +19,7 @@ RULE = (
     "over-approximation).  Domain: member intervals from the exhaustive well-formed domain at widths 2..4 and "
     "boundary-biased random ones at 8/16/32 bits.  Non-trivial: the set has at least two members / a region with a "
     "non-singleton interval."
+    " Session 4: reflected operators with the set on the right; flat-interval consistency of every value-set result; empty value set joined with plain values; regions inserted in another order."
 )
 ASSUMPTIONS = [
     "well-formed member intervals only (see C21)",
